@@ -12,6 +12,7 @@ import (
 	"io"
 	"net"
 	"net/http"
+	"net/http/httptest"
 	"net/textproto"
 	"net/url"
 	"sort"
@@ -98,6 +99,12 @@ type Case struct {
 	// Shaped: the proxy is served on a trafficshape.Listener without any shape
 	// configured; the relay must behave exactly as on a plain listener.
 	Shaped bool `json:"shaped,omitempty"`
+	// ShapeConfig (with Shaped): the configuration document posted to the
+	// listener's trafficshape.Handler before any traffic; "" = none. All of them
+	// leave the bandwidth uncapped or generously capped and define no shapes, so
+	// the relay must still behave as on a plain listener (a document the handler
+	// rejects leaves the listener as it was).
+	ShapeConfig string `json:"shape_config,omitempty"`
 	// HalfClose: the client shuts down the sending direction of its connection
 	// right after the last request is written (FIN) and goes on reading - every
 	// request it sent is still owed its response.
@@ -403,6 +410,33 @@ var (
 	queryParts = []string{"x=1", "y", "x=2", "q=a%20b", "e=", "k=%2F", "a=b=c", "z=%26"}
 )
 
+// Configuration documents for the shaped listener: what they leave out falls
+// back to the listener's defaults (uncapped); none defines a shape.
+var (
+	shapeKinds = []string{"none", "empty", "both-bandwidths", "up-only", "down-only", "empty-bandwidth", "latency-only", "empty-default", "empty-shapes", "latency+empty-shapes"}
+	shapeDocs  = map[string]string{
+		"none":                 "",
+		"empty":                `{"trafficshape":{}}`,
+		"both-bandwidths":      `{"trafficshape":{"default":{"bandwidth":{"up":2000000000,"down":2000000000}}}}`,
+		"up-only":              `{"trafficshape":{"default":{"bandwidth":{"up":2000000000}}}}`,
+		"down-only":            `{"trafficshape":{"default":{"bandwidth":{"down":2000000000}}}}`,
+		"empty-bandwidth":      `{"trafficshape":{"default":{"bandwidth":{}}}}`,
+		"latency-only":         `{"trafficshape":{"default":{"latency":0}}}`,
+		"empty-default":        `{"trafficshape":{"default":{}}}`,
+		"empty-shapes":         `{"trafficshape":{"shapes":[]}}`,
+		"latency+empty-shapes": `{"trafficshape":{"default":{"latency":0},"shapes":[]}}`,
+	}
+)
+
+func shapeKind(doc string) string {
+	for _, k := range shapeKinds {
+		if shapeDocs[k] == doc {
+			return k
+		}
+	}
+	return "other"
+}
+
 func genValue(t *rapid.T, label string) string {
 	kind := rapid.IntRange(0, 9).Draw(t, label+"_kind")
 	switch {
@@ -606,6 +640,9 @@ func genCase(t *rapid.T) Case {
 		c.Exchanges = append(c.Exchanges, e)
 	}
 	c.Shaped = rapid.IntRange(0, 4).Draw(t, "shaped") == 0
+	if c.Shaped {
+		c.ShapeConfig = shapeDocs[rapid.SampledFrom(shapeKinds).Draw(t, "shape_config")]
+	}
 	if rapid.IntRange(0, 3).Draw(t, "parallel") == 0 {
 		m := rapid.IntRange(1, 2).Draw(t, "others")
 		for k := 0; k < m; k++ {
@@ -879,7 +916,14 @@ func runOnce(c Case, T time.Duration) (v kit.Verdict) {
 	p.SetDial(dialer.Dial)
 	var wrap func(net.Listener) net.Listener
 	if c.Shaped {
-		wrap = func(l net.Listener) net.Listener { return trafficshape.NewListener(l) }
+		wrap = func(l net.Listener) net.Listener {
+			tl := trafficshape.NewListener(l)
+			if c.ShapeConfig != "" {
+				rw := httptest.NewRecorder()
+				trafficshape.NewHandler(tl).ServeHTTP(rw, httptest.NewRequest("POST", "/shape-traffic", strings.NewReader(c.ShapeConfig)))
+			}
+			return tl
+		}
 	}
 	pr := netkit.Start(p, wrap)
 	defer pr.Stop(10 * time.Second)
@@ -1223,6 +1267,7 @@ func classes(c Case) []string {
 	}
 	if c.Shaped {
 		cl = append(cl, "traffic-shaped-listener")
+		cl = append(cl, "shape-config-"+shapeKind(c.ShapeConfig))
 	}
 	if len(c.Exchanges) >= 2 {
 		cl = append(cl, "multi-exchange")
@@ -1426,6 +1471,9 @@ type LongCase struct {
 
 func (lc LongCase) expand() Case {
 	c := Case{Mode: lc.Mode, Bursts: lc.Bursts, Shaped: lc.Shaped}
+	if lc.Shaped {
+		c.ShapeConfig = shapeDocs[shapeKinds[int(lc.Seed%uint64(len(shapeKinds)))]]
+	}
 	b := kit.Bytes(lc.Seed, 6*lc.N)
 	for i := 0; i < lc.N; i++ {
 		d := b[6*i : 6*i+6]
